@@ -25,6 +25,7 @@
 """
 import copy
 import os
+import re
 import time as _time
 from math import isfinite, nan
 
@@ -68,6 +69,9 @@ CHECK_REJECT_ORDERID = True  # a cancel reject must carry the OrderID of the ord
 A_QUICK, A_THOROUGH = (5, -1, 400), (7, 2, 3000)
 AU_QUICK, AU_THOROUGH = 1, 3  # BFS depth of the second pass with the non-ASCII order
 AM_THOROUGH = 5  # thorough: full BFS depth for the market-order subclass (quick: directed chains, see SPINES)
+# order quantities (q, q') of the profiles that do not use (QTY_A, QTY_B)
+PROFILE_QTY = {"tiny": (2e-05, 1e16)}
+FOREIGN_CLORD = "somebody-else--1"
 HAND_ORDER_ID = "X77"  # OrderID of the hand-made acknowledgement (profile "resession")
 B_QUICK, B_THOROUGH = 5, 6
 # other public state-touching helper methods as chain ops: states of level <= these bounds also emit the state after
@@ -97,6 +101,7 @@ def G():
         try:
             _G["ET"] = {v: FExecType(v) for v in EXEC_TYPES}
             _G["ST"] = {v: FOrdStatus(v) for v in ORD_STATUSES}
+            _G["ST"]["Z"] = FOrdStatus.CREATED  # member of the helper's own enum, not a FIX status (probes only)
         except ValueError as e:
             raise HarnessError(f"enum member missing: {e}")
         p = _fix44_path()
@@ -129,19 +134,39 @@ def _errclass(e):
     return f"{type(e).__name__}:{field}"
 
 
+EXP_RE = re.compile(r"^[-+]?(\d+\.?\d*|\.\d+)[eE][-+]?\d+$")
+NONFINITE = {"nan", "inf", "+inf", "-inf", "infinity", "+infinity", "-infinity"}
+PRICE_TAGS = {"44", "6", "31", "99"}
+
+
+def _errtag(e):
+    """Tag the validator's complaint is about (None if it cannot be told)."""
+    s = str(e)
+    m = re.search(r"(\w+)\|(\d+)", s)
+    if m:
+        return m.group(2)
+    m = re.search(r"[Ff]ield=(\w+)", s)
+    if m:
+        f = G()["ref"].by_name.get(m.group(1))
+        if f:
+            return f["tag"]
+    m = re.search(r"tag=(\d+)", s)
+    return m.group(1) if m else None
+
+
 def validity(m, kind):
     """list of cause strings; empty when both readings of the dictionary accept m.
 
     The independent reading judges every message.  FIXSchema.validate costs ~0.6 ms
     per call whatever the content, so it is applied in full to every message that
     shows a tag set or a (tag, value) pair it has not yet seen in this process
-    (all of them when FULL_LIB is set: thorough tier)."""
+    (all of them when FULL_LIB is set: thorough tier), and to every message the
+    independent reading complains about.  A complaint both readings share is one cause;
+    numbers in exponent notation / non-finite numbers are one cause class each."""
     g = G()
     d = dict_of(m)
     mt = str(m.msg_type)
-    res = []
-    for reason, tag in g["ref"].complaints(mt, d):
-        res.append(f"{kind}:ref:{reason}:{tag}")
+    ref_c = list(g["ref"].complaints(mt, d))
     norm = tuple((t, "#" if t in ("17", "37") and v.isdigit() else v) for t, v in d.items())
     seen = g["vcache"]
     if FULL_LIB:
@@ -154,14 +179,40 @@ def validity(m, kind):
             if k not in seen:
                 seen[k] = True
                 fresh = True
-    if fresh:
+    lib_c = None  # (class string, tag or None)
+    if fresh or ref_c:
         g["lib_calls"] = g.get("lib_calls", 0) + 1
         try:
             ok = g["lib"].validate(m)
             if ok is not True:
-                res.append(f"{kind}:lib:returned_{ok!r}")
+                lib_c = (f"returned_{ok!r}", None)
         except Exception as e:  # any exception of the validator = does not validate
-            res.append(f"{kind}:lib:{_errclass(e)}")
+            lib_c = (_errclass(e), _errtag(e))
+    if not ref_c and lib_c is None:
+        return []
+    res = []
+    blamed = {t for _r, t in ref_c} | ({lib_c[1]} if lib_c and lib_c[1] else set())
+    handled = set()
+    for t in sorted(blamed, key=lambda x: int(x) if x.isdigit() else 0):
+        v = d.get(t)
+        if isinstance(v, str) and EXP_RE.match(v):
+            res.append(f"{kind}:number_in_exponent_notation:{'price' if t in PRICE_TAGS else 'quantity'}")
+            handled.add(t)
+        elif isinstance(v, str) and v.lower() in NONFINITE:
+            res.append(f"{kind}:non_finite_number:{t}")
+            handled.add(t)
+    res = sorted(set(res))
+    lib_used = False
+    for reason, t in ref_c:
+        if t in handled:
+            continue
+        if lib_c and lib_c[1] == t:
+            res.append(f"{kind}:{reason}:{t}")
+            lib_used = True
+        else:
+            res.append(f"{kind}:ref:{reason}:{t}")
+    if lib_c and not lib_used and lib_c[1] not in handled:
+        res.append(f"{kind}:lib:{lib_c[0]}")
     return res
 
 
@@ -174,11 +225,15 @@ class Track:
     seen and a small exchange-side model of the order (R8-lite) - what the simulated
     exchange has said so far.  Never read back from the order object."""
 
-    def __init__(self, price):
+    def __init__(self, price, qa=QTY_A, qb=QTY_B):
+        self.qa, self.qb = qa, qb
+        self.prev_id = None  # ClOrdID the order had before its last cancel / replace request
+        self.replaced_id = None  # ClOrdID that a processed REPLACED report has retired
+        self.request_by_order = False  # last request was built by order.cancel_req() / replace_req() directly
         self.exec_ids = set()
         self.order_id = None  # OrderID of the first execution report fabricated for the order
         self.reqs = {}  # "F"/"G" -> last request message of that kind
-        self.qty = QTY_A
+        self.qty = qa
         self.price = price
         self.cum = 0
         self.leaves = 0  # nothing reported yet
@@ -191,7 +246,8 @@ class Track:
         self.first_seen_by_request = False  # this helper instance got to know the order through fix_cxl/rep_request
 
     def clone(self):
-        t = Track(self.price)
+        t = Track(self.price, self.qa, self.qb)
+        t.prev_id, t.replaced_id, t.request_by_order = self.prev_id, self.replaced_id, self.request_by_order
         t.exec_ids = set(self.exec_ids)
         t.order_id, t.reqs, t.qty = self.order_id, dict(self.reqs), self.qty
         t.cum, t.leaves, t.pending, t.finished = self.cum, self.leaves, self.pending, self.finished
@@ -203,10 +259,12 @@ class Track:
     def model_key(self):
         return (float(self.qty), float(self.price), float(self.cum), float(self.leaves), self.pending, self.finished,
                 self.reset_after_report, self.second is not None, self.sessions, self.hand_acked,
-                self.first_seen_by_request)
+                self.first_seen_by_request, self.request_by_order)
 
     def after_report(self, op):
-        _, cl, et, st, cum, lv, last, px, oq, orig = op
+        _, cl, et, st, cum, lv, last, px, oq, orig = op[:10]
+        if et == "5":
+            self.replaced_id = self.prev_id
         if cum is not None:
             self.cum = cum
         if lv is not None:
@@ -277,11 +335,14 @@ def new_state(names):
 
     root, ticker, side, price, account = names[:5]
     ft = FIXTester(schema=None)
+    qa, qb = PROFILE_QTY.get(profile_of(names), (QTY_A, QTY_B))
     if profile_of(names).startswith("market"):
-        o = market_class()(root, ticker, side=side, price=price, qty=QTY_A, account=account, ord_type="1")
+        o = market_class()(root, ticker, side=side, price=price, qty=qa, account=account, ord_type="1")
+    elif profile_of(names) == "plain_market":
+        o = FIXNewOrderSingle(root, ticker, side=side, price=price, qty=qa, account=account, ord_type="1")
     else:
-        o = FIXNewOrderSingle(root, ticker, side=side, price=price, qty=QTY_A, account=account)
-    return ft, o, Track(price)
+        o = FIXNewOrderSingle(root, ticker, side=side, price=price, qty=qa, account=account)
+    return ft, o, Track(price, qa, qb)
 
 
 def profile_of(names):
@@ -335,7 +396,8 @@ ACK_CHAIN = [["new"], ["reg"], ["er", "cur", "A", "A", None, None, None, None, N
 # profile -> (spine predicate, root paths, depth below the roots)
 SPINES = {
     "market": (spine_market, [ACK_CHAIN], 1),
-    "resession": (spine_resession, [ACK_CHAIN + [["newft"]], [["hand_ack"]]], 1),
+    "resession": (spine_resession, [ACK_CHAIN + [["newft"]], [["hand_ack"]], ACK_CHAIN + [["ocxl"]],
+                                    ACK_CHAIN + [["orep", None, QTY_B]]], 1),
 }
 
 
@@ -349,13 +411,19 @@ def _f(x):
 
 
 def er_call(ft, o, op):
-    """Call the helper with the concrete arguments of an 'er' op."""
+    """Call the helper with the concrete arguments of an 'er' op.  Optional 11th element: {"clord": literal
+    ClOrdID argument (cl says what kind it is), "avg": avg_price argument}."""
     g = G()
-    _, cl, et, st, cum, lv, last, px, oq, orig = op
-    clord = o.clord_id if cl == "cur" else o.orig_clord_id
+    _, cl, et, st, cum, lv, last, px, oq, orig = op[:10]
+    extra = op[10] if len(op) > 10 and op[10] else {}
+    if "clord" in extra:
+        clord = extra["clord"]
+    else:
+        clord = o.clord_id if cl == "cur" else o.orig_clord_id
     origv = None if orig is None else (o.orig_clord_id or o.clord_id)
+    kw = {"avg_price": float(extra["avg"])} if "avg" in extra else {}
     return ft.fix_exec_report_msg(o, clord, g["ET"][et], g["ST"][st], _f(cum), _f(lv), _f(last),
-                                  _f(px), _f(oq), origv)
+                                  _f(px), _f(oq), origv, **kw)
 
 
 HELPER_METHODS = {"reset": "reset_messages", "reg_again": "registering_the_order_again",
@@ -412,13 +480,24 @@ def apply_op(ft, o, tr, op):
     elif k == "cxl":
         if o.clord_id not in ft.registered_orders:
             tr.first_seen_by_request = True
+        prev = o.clord_id
         tr.reqs["F"] = ft.fix_cxl_request(o)
-        tr.pending = "F"
+        tr.pending, tr.prev_id, tr.request_by_order = "F", prev, False
     elif k == "rep":
         if o.clord_id not in ft.registered_orders:
             tr.first_seen_by_request = True
+        prev = o.clord_id
         tr.reqs["G"] = ft.fix_rep_request(o, _f(op[1]), _f(op[2]))
-        tr.pending = "G"
+        tr.pending, tr.prev_id, tr.request_by_order = "G", prev, False
+    elif k == "ocxl":
+        # the request is built by the order object itself (as the library's own tests do), not through the helper
+        prev = o.clord_id
+        tr.reqs["F"] = o.cancel_req()
+        tr.pending, tr.prev_id, tr.request_by_order = "F", prev, True
+    elif k == "orep":
+        prev = o.clord_id
+        tr.reqs["G"] = o.replace_req(_f(op[1]), _f(op[2]))
+        tr.pending, tr.prev_id, tr.request_by_order = "G", prev, True
     elif k == "rej":
         m = ft.fix_cxlrep_reject_msg(tr.reqs[op[1]], G()["ST"][op[2]])
         o.process_cancel_rej_report(m)
@@ -470,7 +549,7 @@ def _dedupe(xs):
 
 
 def other_qty(tr):
-    return QTY_B if float(tr.qty) == float(QTY_A) else QTY_A
+    return tr.qb if float(tr.qty) == float(tr.qa) else tr.qa
 
 
 def er_grid(o, tr, et):
@@ -562,7 +641,7 @@ def judge_er_pair(acc, names, path, ft, o, tr, op, seen_exec):
         return None
     acc.accepted += 1
     rep = {"part": "a", "names": list(names), "path": path, "op": op}
-    _, cl, et, st, cum, lv, last, px, oq, orig = op
+    _, cl, et, st, cum, lv, last, px, oq, orig = op[:10]
     d1 = dict_of(m1)
     info = {"op": op, "report": d1, "order": {"status": str(o.status), "qty": o.qty, "cum_qty": o.cum_qty,
                                                 "leaves_qty": o.leaves_qty, "order_id": o.order_id}}
@@ -610,7 +689,8 @@ def judge_er_pair(acc, names, path, ft, o, tr, op, seen_exec):
         acc.processed += 1
         acc.outcomes.add(("er", et, st, bool(r)))
     except Exception as e:
-        acc.v(f"process_no_error|exec_report:{type(e).__name__}", CL_PROC,
+        whose = "" if cl in ("cur", "orig") else f":clord_id_{cl}"
+        acc.v(f"process_no_error|exec_report:{type(e).__name__}{whose}", CL_PROC,
               dict(info, exception=f"{type(e).__name__}: {e}"), rep)
         return None
     return oc, o1
@@ -747,7 +827,7 @@ def expand_misc(item):
     # cancel / replace rejects for every request kind x status
     g = G()
     for kind in sorted(tr.reqs):
-        for st in ORD_STATUSES:
+        for st in ORD_STATUSES + ["Z"]:
             op = ["rej", kind, st]
             rep = {"part": "a", "names": list(names), "path": path, "op": op}
             ft2, o2, tr2 = build(names, path)
@@ -766,7 +846,8 @@ def expand_misc(item):
             for cause in validity(m, "cancel_reject"):
                 acc.v(f"valid_dictionary|{cause}", CL_VALID, dict(info, complaint=cause), rep)
             if CHECK_REJECT_ORDERID and tr2.order_id is not None and d.get("37") != tr2.order_id:
-                how = ("cancel_reject_for_order_this_helper_first_saw_through_a_request" if tr2.first_seen_by_request
+                how = ("cancel_reject_for_request_built_by_the_order_object" if tr2.request_by_order
+                       else "cancel_reject_for_order_this_helper_first_saw_through_a_request" if tr2.first_seen_by_request
                        else "cancel_reject_differs_from_execution_reports")
                 acc.v(f"orderid_stable|{how}", CL_OID,
                       dict(info, expected=tr2.order_id, observed=d.get("37")), rep)
@@ -783,7 +864,29 @@ def expand_misc(item):
                 continue
             tr2.pending = None
             acc.add_succ(state_key(ft2, o2, tr2), op, wild)
+    probe_arguments(acc, names, path)
     return acc.pack()
+
+
+def probe_arguments(acc, names, path):
+    """Arguments outside the main grid, all numeric arguments defaulted, ExecType x OrdStatus each:
+    ClOrdID that is not one of the order's current ids (somebody else's, the root, the id a REPLACED report has
+    retired); OrdStatus CREATED (member of the helper's enum, value Z); avg_price=nan."""
+    ft, o, tr = build(names, path)
+    seen_exec = set(tr.exec_ids)
+    own = {o.clord_id, o.orig_clord_id}
+    D = [None] * 6
+    kinds = [("foreign", FOREIGN_CLORD), ("root", o.clord_id_root), ("replaced", tr.replaced_id)]
+    for kind, cid in kinds:
+        if cid is None or cid in own:
+            continue
+        for et in EXEC_TYPES:
+            for st in (ORD_STATUSES if kind == "foreign" else ["0", "1", "2", "4"]):
+                judge_er_pair(acc, names, path, ft, o, tr, ["er", kind, et, st] + D + [{"clord": cid}], seen_exec)
+    for et in EXEC_TYPES:
+        judge_er_pair(acc, names, path, ft, o, tr, ["er", "cur", et, "Z"] + D, seen_exec)
+        for st in ORD_STATUSES:
+            judge_er_pair(acc, names, path, ft, o, tr, ["er", "cur", et, st] + D + [{"avg": "nan"}], seen_exec)
 
 
 def expand(item):
@@ -864,6 +967,44 @@ def run_session(names):
 # --------------------------------------------------------------------------
 # run / replay
 # --------------------------------------------------------------------------
+
+def special_chains(names):
+    """Tiny / huge quantities and prices, and a plain MARKET order created without a price: one acknowledged,
+    partly filled and replaced chain each, every report of the chain judged like a grid point."""
+    out = []
+    for prof, price in (("tiny", 5e-05), ("plain_market", nan)):
+        nm = tuple(names[:3]) + (price, names[4], prof)
+        qa, qb = PROFILE_QTY.get(prof, (QTY_A, QTY_B))
+        h = qa / 2
+        chain = [["new"], ["reg"],
+                 ["er", "cur", "A", "A", None, None, None, None, None, None],
+                 ["er", "cur", "0", "0", None, qa, None, None, None, None],
+                 ["er", "cur", "F", "1", h, qa - h, h, None, None, None],
+                 ["rep", None, qb],
+                 ["er", "cur", "5", "1", None, qb - h, None, None, qb, None]]
+        out.append((nm, chain))
+    return out
+
+
+def run_special(names):
+    acc = Acc()
+    for nm, chain in special_chains(names):
+        path = []
+        for op in chain:
+            if op[0] == "er":
+                try:
+                    ft, o, tr = build(nm, path)
+                except Exception:
+                    break
+                judge_er_pair(acc, nm, list(path), ft, o, tr, op, set(tr.exec_ids))
+            path = path + [op]
+            try:
+                build(nm, path)
+            except Exception as e:
+                acc.outcomes.add(("special_chain_stops", profile_of(nm), op[0], type(e).__name__))
+                break
+    return acc
+
 
 def fold(ctx, totals, res):
     ctx.merge_violations(res["viol"])
@@ -959,6 +1100,7 @@ def run(ctx):
         expanded += exp_x
         levels_x[prof] = lv_x
     fold(ctx, totals, run_session(names).pack())
+    fold(ctx, totals, run_special(names).pack())
     # ---- (b) fidelity
     fb = c20_world.run_fidelity(ctx, blen)
 
@@ -1008,6 +1150,7 @@ def run(ctx):
         "ClOrdID arguments are restricted to the ids the order currently holds (a foreign id is rejected by the order object; pinned by test_exec_report_clord_mismatch)",
         "order is a LIMIT order with finite price and a string account; quantities 10 and 12; a second, shallower BFS uses an order with non-ASCII ticker / account",
         "further directed passes (full grid in every state): an order subclass whose set_price_qty() hook leaves Price out (market order; quick: acknowledged order + cancel / replace request, thorough: full BFS), and orders the helper instance first sees through fix_cxl_request / fix_rep_request (second helper instance after an acknowledgement through the first; acknowledgement by hand-made reports)",
+        "probes outside the main grid in every state (numeric arguments defaulted, ExecType x OrdStatus): ClOrdID of somebody else / the root / the id retired by a REPLACED report, OrdStatus CREATED (Z), avg_price=nan; cancel rejects also with CREATED; directed chains for quantity 2e-05 / 1e16 with price 5e-05 and for a plain MARKET order with price nan; requests built by order.cancel_req() / replace_req()",
         "chains are extended with exchange-consistent reports only (all other accepted reports are judged and processed one step deep)",
         "quick tier: FIXSchema.validate (0.6 ms per call) runs on every message showing a new tag set or a new (tag, value) pair; the independent dictionary reading runs on every message; thorough tier: FIXSchema.validate on every distinct content",
         "fidelity: no virtual time passes during a script (heartbeat timers never fire); application hooks do not send",
